@@ -109,6 +109,13 @@ theorem C02_canFuse_guards (d : Opt.DagRec) (o : Opt.OpRec) (ps : Opt.Params)
           t.1.isPrim = true ∧ t.1.fusSucc = true ∧ Opt.outDegreeUnique d t.2.1 = 1) :=
   Opt.canFuse_guards d o ps h
 
+/-- (h) `out_degree_unique == 1` (one of the guards in (g)) is exactly the `only` side condition of
+`StepOK`: no op other than the fusing successor reads the removed array. -/
+theorem C02_single_consumer (d : Opt.DagRec) (a : String) (s o : Opt.OpRec) (hs : s ∈ d.ops) (ho : o ∈ d.ops)
+    (hsa : s.inEdges.contains a = true) (hoa : o.inEdges.contains a = true)
+    (h1 : Opt.outDegreeUnique d a = 1) : o = s :=
+  Opt.single_consumer d a s o hs ho hsa hoa h1
+
 /-! Non-vacuity: a three-op chain `x → a → b` with `a` fused into `b` satisfies `StepOK`. -/
 
 def opA : Op Nat :=
